@@ -3,7 +3,7 @@ C01 — CIM objects survive the CIM-XML wire format unchanged.
 Property theorems only (helper lemmas: Proofs/Lemmas/XmlText.lean, Proofs/Lemmas/CimXml.lean).
 -/
 import Proofs.Lemmas.XmlText
-import Proofs.Lemmas.CimXml12
+import Proofs.Lemmas.CimXml15
 import Proofs.Props.XmlSyntax
 
 namespace C01
@@ -229,32 +229,95 @@ theorem C01_encObj_isElem (C : DecCodec) (o : Obj) : (encObj C.toCodec o).isElem
   | qual q => obtain ⟨as, ks, h⟩ := Proofs.CimXml.encQual_shape C q; simp only [encObj, h, Xml.isElem]
   | qdecl q => simp only [encObj, encQualDecl]; rfl
 
-/-- **C01 end to end (serialise → parse → decode), partial.**  With the concrete XML parser proved
-    against the serializer (Proofs/Props/XmlSyntax.lean) the element-syntax layer is no longer a
-    hypothesis: bytes written for a sendable object, parsed and decoded, give the object with the
-    DSP0201 defaults.  *Partial*: `StableTree` excludes what `C01_text_wire` shows is changed or
-    dropped by the wire itself — strings containing CR (finding C01-KF1), names containing TAB/LF/CR,
-    and empty string values (an empty text node is not re-created by the parser; the decoder reads
-    an absent text as `''`, which the correspondence run confirms but which is not proved here). -/
+/-- **The decoder is blind to text chunking.**  For EVERY received tree (not only encoder output) merging
+    adjacent text children and dropping empty ones (`normTree`, what the SAX handler delivers) does not
+    change the decoding result — in particular `<VALUE></VALUE>` without a text child is the empty string. -/
+theorem C01_decode_blind_to_chunking (C : DecCodec) (d : Nat) (t : Xml) :
+    decode C d (Proofs.CimXml.normTree t) = decode C d t :=
+  Proofs.CimXml.decodeTop_norm C (embAt C d) t
+
+/-- **Element level of the wire.**  For a well-formed element whose texts hold no CR and whose attribute
+    values hold no TAB/LF/CR (`SoftStable`: empty and adjacent text children are allowed) the concrete
+    parser returns the sender's tree up to text chunking. -/
+theorem C01_wire_tree (t : Xml) (hw : WfTree t) (hel : t.isElem = true) (hs : Proofs.CimXml.SoftStable t) :
+    par (Xml.ser t) = some (Proofs.CimXml.normTree t) := by
+  rw [XmlSyntax.XmlSyntax_par_ser t hw hel]
+  exact Proofs.CimXml.wireTree_norm t hw hs
+
+/-- the earlier `StableTree` is the special case without empty / adjacent texts -/
+theorem C01_stable_is_soft (t : Xml) (h : StableTree t) : Proofs.CimXml.SoftStable t :=
+  Proofs.CimXml.soft_of_stable t h
+
+/-- **C01 end to end (serialise → parse → decode), partial.**  The bytes written for a sendable object,
+    parsed by the concrete XML parser (proved against the serializer in Proofs/Props/XmlSyntax.lean) and
+    decoded, give the object with the DSP0201 defaults — INCLUDING empty string values.
+    *Partial*, exclusions stated on the tree the sender builds (both decidable):
+    * `SoftStable`: a text (string value, host, key value) containing CR — finding C01-KF1, it arrives as
+      LF — and an attribute value (name, class name, namespace, type, class origin, reference class …)
+      containing TAB / LF / CR — attribute-value normalisation turns them into blanks;
+    * `WfTree`: a character outside the XML 1.0 `Char` production (not representable), and two SCOPE
+      attributes with the same upper-cased name (element and attribute names are otherwise literals). -/
 theorem C01_end_to_end_partial (C : DecCodec) (S : Proofs.CimXml.Spec) (hC : Proofs.CimXml.CodecOk C S) (o : Obj)
     (h : Proofs.CimXml.Sendable S o) (d : Nat) (hd : Proofs.CimXml.embDepth o ≤ d)
-    (hw : WfTree (encObj C.toCodec o)) (hs : StableTree (encObj C.toCodec o)) :
+    (hw : WfTree (encObj C.toCodec o)) (hs : Proofs.CimXml.SoftStable (encObj C.toCodec o)) :
     (par (Xml.ser (encObj C.toCodec o))).map (decode C d) = some (.ok (Proofs.CimXml.wdObj C.toCodec o)) := by
-  rw [XmlSyntax.XmlSyntax_par_ser_stable _ hw (C01_encObj_isElem _ o) hs]
-  simp [C01_roundtrip C S hC o h d hd]
+  rw [C01_wire_tree _ hw (C01_encObj_isElem _ o) hs, Option.map_some, C01_decode_blind_to_chunking,
+    C01_roundtrip C S hC o h d hd]
 
-/-- the `par_inst` / `par_cls` fields of `CodecOk` hold for every codec that uses the concrete parser -/
+/-- the text-chunking exclusion is gone: an instance with an EMPTY string property value goes end to end -/
+example : (par (Xml.ser (encObj Proofs.CimXml.toyCodec.toCodec (.prop
+      (.mk "P".toList "string".toList (.scalar (.str [])) false none none none none none []))))).map
+        (decode Proofs.CimXml.toyCodec 0) =
+    some (.ok (Proofs.CimXml.wdObj Proofs.CimXml.toyCodec.toCodec (.prop
+      (.mk "P".toList "string".toList (.scalar (.str [])) false none none none none none [])))) := by
+  apply C01_end_to_end_partial _ Proofs.CimXml.toySpec Proofs.CimXml.toyCodecOk
+  · simp [Proofs.CimXml.Sendable, Proofs.CimXml.SendableProp, Proofs.CimXml.SendablePropVal,
+      Proofs.CimXml.SendableQuals, Proofs.CimXml.NoDupNames, Proofs.CimXml.PlainAtom, Proofs.CimXml.typeName,
+      Proofs.CimXml.AtomOk]
+  · decide
+  · simp only [encObj, encProp, encQuals, encVal, atomText]; decide
+  · simp only [encObj, encProp, encQuals, encVal, atomText]; decide
+
+/-- the `par_inst` / `par_cls` fields of `CodecOk` hold for every codec that uses the concrete parser, for
+    all embedded objects whose tree is well formed and `SoftStable` (empty strings inside embedded
+    objects included) -/
 theorem C01_par_fields_discharged (C : DecCodec) (hpar : C.par = par) :
-    (∀ i, WfTree (encInstElem C.toCodec i) → StableTree (encInstElem C.toCodec i) →
-        C.par (Xml.ser (encInstElem C.toCodec i)) = some (encInstElem C.toCodec i)) ∧
-    (∀ c, WfTree (encCls C.toCodec c) → StableTree (encCls C.toCodec c) →
-        C.par (Xml.ser (encCls C.toCodec c)) = some (encCls C.toCodec c)) := by
+    (∀ i, WfTree (encInstElem C.toCodec i) → Proofs.CimXml.SoftStable (encInstElem C.toCodec i) →
+        ∃ t', C.par (Xml.ser (encInstElem C.toCodec i)) = some t' ∧
+          Proofs.CimXml.normTree t' = Proofs.CimXml.normTree (encInstElem C.toCodec i)) ∧
+    (∀ c, WfTree (encCls C.toCodec c) → Proofs.CimXml.SoftStable (encCls C.toCodec c) →
+        ∃ t', C.par (Xml.ser (encCls C.toCodec c)) = some t' ∧
+          Proofs.CimXml.normTree t' = Proofs.CimXml.normTree (encCls C.toCodec c)) := by
   constructor
   · intro i hw hs
+    refine ⟨_, ?_, Proofs.CimXml.normTree_idem _⟩
     rw [hpar]
-    exact XmlSyntax.XmlSyntax_par_ser_stable _ hw (by obtain ⟨c, p, ps, qs⟩ := i; simp only [encInstElem]; rfl) hs
+    exact C01_wire_tree _ hw (by obtain ⟨c, p, ps, qs⟩ := i; simp only [encInstElem]; rfl) hs
   · intro c hw hs
+    refine ⟨_, ?_, Proofs.CimXml.normTree_idem _⟩
     rw [hpar]
-    exact XmlSyntax.XmlSyntax_par_ser_stable _ hw (by obtain ⟨n, sup, p, ps, ms, qs⟩ := c; simp only [encCls]; rfl) hs
+    exact C01_wire_tree _ hw (by obtain ⟨n, sup, p, ps, ms, qs⟩ := c; simp only [encCls]; rfl) hs
+
+/-- … so `CodecOk` for a codec using the concrete parser needs only the float / datetime hypotheses;
+    "re-read faithfully" becomes the decidable tree condition `WfTree ∧ SoftStable` -/
+theorem C01_codecOk_of_par (C : DecCodec) (hpar : C.par = par) (validDt : Str → Prop)
+    (real_parses : ∀ w b, cimxmlHex (strip (C.fmtReal w b)) = none ∧ pyInt (strip (C.fmtReal w b)) = none ∧
+                        (C.parseFloat (strip (C.fmtReal w b))).isSome = true)
+    (key_parses : ∀ b, cimxmlHex (strip (C.strFloat b)) = none ∧ pyInt (strip (C.strFloat b)) = none ∧
+                     (C.parseFloat (strip (C.strFloat b))).isSome = true)
+    (real_idem : ∀ w b, C.fmtReal w (C.reparse w b) = C.fmtReal w b)
+    (key_idem : ∀ b, C.strFloat (C.reparseKey b) = C.strFloat b)
+    (dt_ok : ∀ s, validDt s → C.parseDt s = some s) :
+    Proofs.CimXml.CodecOk C
+      { validDt := validDt,
+        embInstOk := fun i => WfTree (encInstElem C.toCodec i) ∧ Proofs.CimXml.SoftStable (encInstElem C.toCodec i),
+        embClsOk := fun c => WfTree (encCls C.toCodec c) ∧ Proofs.CimXml.SoftStable (encCls C.toCodec c) } where
+  real_parses := real_parses
+  key_parses := key_parses
+  real_idem := real_idem
+  key_idem := key_idem
+  dt_ok := dt_ok
+  par_inst := fun i h => (C01_par_fields_discharged C hpar).1 i h.1 h.2
+  par_cls := fun c h => (C01_par_fields_discharged C hpar).2 c h.1 h.2
 
 end C01
